@@ -446,6 +446,43 @@ Definition rc_reclaimed (s : rc_st) : nat := rc_joined s + (if rc_detached s the
 Definition rc_ok (s : rc_st) : bool :=
   negb (rc_bad s) && (rc_reclaimed s <=? 1) && (negb (rc_final s) || (rc_reclaimed s =? 1)).
 
+(* ================================================================== 4g. rfbShutdownServer against the listener thread (main.c listenerRun, rfbShutdownServer)
+   ONE incoming connection.  thread 1 = listener: [accept; rfbNewClient LINKS the client] [rfbStartOnHoldClient CREATES its
+   thread] then idles in select() until told to stop.  thread 0 = application in rfbShutdownServer, three actions:
+   LOOP (for every listed client: rfbCloseClient; pthread_join(cl->client_thread)), STOP (rfbShutdownSockets: socketState =
+   SHUTDOWN, notify pipe), JOINL (pthread_join(listener_thread)).  HEAD: LOOP; STOP; JOINL.  fixed (notes/fix_C13_7.diff): STOP; JOINL; LOOP. *)
+Record ls_st := mkLs {
+  ls_listed : bool; ls_thread : bool; ls_stop : bool;
+  ls_badjoin : bool;     (* pthread_join of a client thread that does not exist (yet) *)
+  ls_passed : bool;      (* the client loop of rfbShutdownServer is over *)
+  ls_late : bool;        (* a client thread was created after that: it outlives rfbShutdownServer *)
+  ls_pcA : nat; ls_pcL : nat
+}.
+Scheme Equality for ls_st.
+Definition ls_step (fixed : bool) (t : nat) (s : ls_st) : option ls_st :=
+  let loop := mkLs (ls_listed s) (ls_thread s) (ls_stop s) (ls_badjoin s || (ls_listed s && negb (ls_thread s))) true (ls_late s) (S (ls_pcA s)) (ls_pcL s) in
+  let stop := mkLs (ls_listed s) (ls_thread s) true (ls_badjoin s) (ls_passed s) (ls_late s) (S (ls_pcA s)) (ls_pcL s) in
+  let joinl := if ls_pcL s =? 3 then Some (mkLs (ls_listed s) (ls_thread s) (ls_stop s) (ls_badjoin s) (ls_passed s) (ls_late s) (S (ls_pcA s)) (ls_pcL s)) else None in
+  match t with
+  | 0 => match ls_pcA s with
+         | 0 => if fixed then Some stop else Some loop
+         | 1 => if fixed then joinl else Some stop
+         | 2 => if fixed then Some loop else joinl
+         | _ => None
+         end
+  | 1 => match ls_pcL s with
+         | 0 => if ls_stop s then Some (mkLs (ls_listed s) (ls_thread s) (ls_stop s) (ls_badjoin s) (ls_passed s) (ls_late s) (ls_pcA s) 3)
+                else Some (mkLs true (ls_thread s) (ls_stop s) (ls_badjoin s) (ls_passed s) (ls_late s) (ls_pcA s) 1)         (* accept; rfbNewClient links *)
+         | 1 => Some (mkLs (ls_listed s) true (ls_stop s) (ls_badjoin s) (ls_passed s) (ls_late s || ls_passed s) (ls_pcA s) 2)    (* rfbStartOnHoldClient *)
+         | 2 => if ls_stop s then Some (mkLs (ls_listed s) (ls_thread s) (ls_stop s) (ls_badjoin s) (ls_passed s) (ls_late s) (ls_pcA s) 3) else None
+         | _ => None
+         end
+  | _ => None
+  end.
+Definition ls_init : ls_st := mkLs false false false false false false 0 0.
+Definition ls_final (s : ls_st) : bool := (ls_pcA s =? 3) && (ls_pcL s =? 3).
+Definition ls_ok (s : ls_st) : bool := negb (ls_badjoin s) && negb (ls_late s).
+
 (* ================================================================== 4b. a request wakes the output thread (rfbserver.c, main.c)
    thread 0 = application: ONE framebuffer operation (kind 0: rfbMarkRectAsModified -> modifiedRegion, TSIGNAL;
               kind 1: rfbDoCopyRect -> copyRegion, TSIGNAL; kind 2: cursor moved/replaced -> cursor flag, no signal)
